@@ -11,13 +11,14 @@ LEVEL = "model_checking"
 PID = "C16"
 
 
-def write_mc(workdir, name, part, instances=(), cov_masked=False, keyed=True, maxlen=3, invariants=()):
+def write_mc(workdir, name, part, instances=(), cov_masked=False, keyed=True, maxlen=3, invariants=(), set_clears="all", fant_live=False):
     os.makedirs(workdir, exist_ok=True)
     mod = "MC_NanPolicy_" + name
     with open(os.path.join(workdir, mod + ".tla"), "w") as f:
         f.write("---- MODULE %s ----\nEXTENDS NanPolicy\nInstDef == {%s}\n====\n" % (mod, ",\n  ".join(tla(i) for i in instances)))
     cfg = os.path.join(workdir, mod + ".cfg")
-    tlc.write_cfg(cfg, spec="Spec", constants={"Part": part, "Instances": "<- InstDef", "CovMasked": cov_masked, "KeyedByPolicy": keyed, "MaxLen": maxlen},
+    tlc.write_cfg(cfg, spec="Spec", constants={"Part": part, "Instances": "<- InstDef", "CovMasked": cov_masked, "KeyedByPolicy": keyed, "MaxLen": maxlen,
+                                               "SetTargetsClears": set_clears, "FantasyCacheLive": fant_live},
                   invariants=list(invariants))
     return os.path.join(workdir, mod + ".tla"), cfg
 
@@ -46,7 +47,7 @@ def _worker(item):
     import gpytorch
     out = []
     for c in item["cases"]:
-        out.extend(run_case(torch, gpytorch, c))
+        out.extend(run_data_history(torch, gpytorch, c) if c.get("kind") == "datahist" else run_case(torch, gpytorch, c))
     return out
 
 
@@ -225,6 +226,93 @@ def run_case(torch, gpytorch, c):
     return results
 
 
+def run_data_history(torch, gpytorch, c):
+    """datahist part of NanPolicy.tla on a real single-output exact GP: predictions interleaved with set_train_data(targets=) and
+    get_fantasy_model under any policy; every predicted mean = the Gaussian conditional on the observed entries of the CURRENT data."""
+    from gpytorch import settings
+    from contextlib import nullcontext
+    g = torch.Generator().manual_seed(c["seed"])
+    n, m = c["n"], 2
+    x = torch.rand(n, 1, generator=g, dtype=torch.float64) * 2 - 1
+    xs = torch.rand(3, 1, generator=g, dtype=torch.float64) * 2 - 1
+
+    def draw(k, pat):
+        xx = None
+        yy = 0.5 * torch.randn(k, generator=g, dtype=torch.float64)
+        return yy, torch.tensor(pat, dtype=torch.bool)
+
+    yfull, miss = draw(n, c["missing"])
+    names = [o[0] + ("(%s)" % o[1] if len(o) > 1 else "") for o in c["ops"]]
+    desc = "single n=%d missing=%s data-history %s" % (n, "".join("x" if q else "." for q in c["missing"]), " > ".join(names))
+    results = []
+
+    def res(what, ok, detail, pol):
+        results.append(dict(key=["datahist", n, c["missing"], names, what], ok=ok, nontrivial=True, sig="C16/datahist/%s/%s" % (what, pol),
+                            detail=desc + ": " + detail, case=c))
+
+    def with_nan(yy, mm):
+        out = yy.clone()
+        out[mm] = float("nan")
+        return out
+
+    model, lik = build(torch, gpytorch, "single", x, with_nan(yfull, miss))
+    model.eval(); lik.eval()
+    cur = model
+
+    def reference():
+        fresh, flik = build(torch, gpytorch, "single", x, yfull)
+        fresh.load_state_dict({k: v.clone() for k, v in model.state_dict().items()})
+        fresh.eval(); flik.eval()
+        with torch.no_grad(), settings.observation_nan_policy("ignore"):
+            prior = fresh.forward(torch.cat([x, xs], dim=-2))
+            K, Kn, mu = prior.covariance_matrix, flik(prior).covariance_matrix, prior.mean
+        idx = (~miss).nonzero().squeeze(-1)
+        N = x.shape[-2]
+        A = Kn[:N, :N][idx][:, idx]
+        sol = torch.linalg.solve(A, (yfull[idx] - mu[:N][idx]).unsqueeze(-1)).squeeze(-1)
+        return mu[N:] + K[N:, :N][:, idx] @ sol
+
+    def pctx(p):
+        return settings.observation_nan_policy(p) if p != "none" else nullcontext()
+
+    ops = list(c["ops"]) + [["P", "mask"], ["P", "fill"]]          # closing observations under both policies
+    for step, o in enumerate(ops):
+        if o[0] == "P":
+            with pctx(o[1]):
+                ok, r = core.guarded(lambda: cur(xs).mean.detach().clone())
+            if not ok:
+                res("raises", False, "step %d Predict(%s) raised %s" % (step, o[1], r), o[1])
+                return results
+            if torch.isnan(r).any():
+                res("nan-in-output", False, "step %d Predict(%s): NaN in the posterior mean" % (step, o[1]), o[1])
+                return results
+            good, why = core.close(r, reference(), 1e-7, 1e-9)
+            res("mean", good, "step %d Predict(%s): posterior mean differs from conditioning on the observed entries of the current data: %s" % (step, o[1], why), o[1])
+            if not good:
+                return results
+        elif o[0] == "R":
+            cur.train(); cur.eval()
+        elif o[0] == "S":
+            yfull, miss = draw(x.shape[-2], o[2] + [False] * (x.shape[-2] - len(o[2])))
+            with pctx(o[1]):
+                ok, r = core.guarded(lambda: cur.set_train_data(targets=with_nan(yfull, miss), strict=bool(step % 2 == 0)))
+            if not ok:
+                res("raises", False, "step %d set_train_data(targets) under %s raised %s" % (step, o[1], r), o[1])
+                return results
+        elif o[0] == "F":
+            xf = torch.rand(m, 1, generator=g, dtype=torch.float64) * 2 - 1
+            yf, mf = draw(m, o[2])
+            with pctx(o[1]):
+                ok, r = core.guarded(lambda: cur.get_fantasy_model(xf, with_nan(yf, mf)))
+            if not ok:
+                res("raises", False, "step %d get_fantasy_model under %s raised %s" % (step, o[1], r), o[1])
+                return results
+            cur = r
+            x = torch.cat([x, xf], dim=-2)
+            yfull, miss = torch.cat([yfull, yf]), torch.cat([miss, mf])
+    return results
+
+
 def full_e_elem(torch, lik, y, fdist, nm):
     """elementwise (point x task) terms of the multitask Gaussian likelihood from its own noise diagonal"""
     import math
@@ -259,7 +347,21 @@ def run(ck):
     jobs.append(((mod, cfg), dict(name=PID + "/machine", check=False, workers=2, dump=True)))
     mod, cfg = write_mc(wd, "machine_broken", "machine", maxlen=3, keyed=False, invariants=["ServedUnderCurrentPolicy"])
     jobs.append(((mod, cfg), dict(name=PID + "/machine_broken", check=False, workers=2)))
+    mod, cfg = write_mc(wd, "datahist", "datahist", maxlen=L, invariants=["ServedCurrent"])
+    jobs.append(((mod, cfg), dict(name=PID + "/datahist", check=False, workers=2, dump=True)))
+    mod, cfg = write_mc(wd, "datahist_active", "datahist", maxlen=3, invariants=["ServedCurrent"], set_clears="active")
+    jobs.append(((mod, cfg), dict(name=PID + "/datahist_active", check=False, workers=2)))
+    mod, cfg = write_mc(wd, "datahist_live", "datahist", maxlen=3, invariants=["ServedCurrent"], fant_live=True)
+    jobs.append(((mod, cfg), dict(name=PID + "/datahist_live", check=False, workers=2)))
     rs = tlc.run_many(jobs, parallel=4)
+    rs, dh, dh_active, dh_live = rs[:4], rs[4], rs[5], rs[6]
+    for lab, r in zip(("datahist (targets replaced / fantasies between predictions)", "set_train_data clears only the active policy's entry (must be rejected)",
+                       "NaN-unaware fantasy mean cache found by later predictions (must be rejected)"), (dh, dh_active, dh_live)):
+        ck.add_tlc(r, lab)
+    if dh.violation:
+        ck.model_drift("NanPolicy.tla datahist violates %s" % dh.violation["name"])
+    if not dh_active.violation or not dh_live.violation:
+        ck.vacuous("a broken data-history model is accepted by TLC")
     for lab, r in zip(("algebra (mask/fill = deletion, exact rationals)", "current-code covariance (prediction)", "policy-keyed cache machine", "cache keyed without policy (must be rejected)"), rs):
         ck.add_tlc(r, lab)
     if rs[0].violation:
@@ -319,8 +421,34 @@ def run(ck):
                 pat[b * nn] = False
         for seq in seqs[:: (1 if thorough else 3)]:
             cases.append(dict(kind="batch2", n=nn, missing=pat, policies=list(seq), seed=ck.seed * 100 + 120 + k))
+    # data histories: maximal TLC histories that contain a SetTargets or a Fantasy; NaN patterns of the new targets rotate
+    dhs = set()
+    for st in dh.states():
+        h = st["hist"]
+        if len(h) == L and any(str(e["a"]) in ("SetTargets", "Fantasy") for e in h):
+            dhs.add(tuple((str(e["a"]), str(e.get("policy", e.get("under", "")))) for e in h))
+    dhs = sorted(dhs)
+    if not dhs:
+        ck.vacuous("no data histories generated")
+    ck.section("datahist", histories=len(dhs))
+    spats = [[False, True, False, False], [True, False, False, True], [False, False, False, False]]
+    fpats = [[True, False], [False, False], [False, True]]
+    for j, h in enumerate(dhs):
+        for q in range(3 if thorough else 1):
+            ops = []
+            for i, (a, arg) in enumerate(h):
+                if a == "Predict":
+                    ops.append(["P", arg])
+                elif a == "Reset":
+                    ops.append(["R"])
+                elif a == "SetTargets":
+                    ops.append(["S", arg, spats[(j + i + q) % 3]])
+                else:
+                    ops.append(["F", arg, fpats[(j + i + q) % 3]])
+            init = [[False, True, False, False], [False, False, False, False], [True, False, True, False]][(j + q) % 3]
+            cases.append(dict(kind="datahist", n=4, missing=init, ops=ops, seed=ck.seed * 100 + 300 + j))
     # value class "an observed target equals the fill sentinel" (NanPolicy.tla instances with y = -999 at an observed index)
-    cases += [dict(cc, sentinel=True) for i, cc in enumerate(cases) if (thorough and i % 2 == 0) or i % 5 == 0]
+    cases += [dict(cc, sentinel=True) for i, cc in enumerate(cases) if cc.get("kind") != "datahist" and ((thorough and i % 2 == 0) or i % 5 == 0)]
     items = [dict(cases=cases[i:i + 8]) for i in range(0, len(cases), 8)]
     results = core.pmap(_worker, items, chunksize=1)
     ck.absorb(results)
@@ -330,7 +458,8 @@ def run(ck):
 def replay(rep):
     torch = core.setup_torch()
     import gpytorch
-    bad = [r for r in run_case(torch, gpytorch, dict(rep["case"])) if not r["ok"]]
+    fn = run_data_history if rep["case"].get("kind") == "datahist" else run_case
+    bad = [r for r in fn(torch, gpytorch, dict(rep["case"])) if not r["ok"]]
     for r in bad:
         print("VIOLATION property=C16 replay=- :: %s :: %s" % (r["sig"], r["detail"]))
     if not bad:
